@@ -327,6 +327,17 @@ func NewTransactionFromBytes(b []byte) (*Transaction, error) {
 		return nil, errors.New("additional data after the transaction")
 	}
 	tx.size = len(b)
+	// Some elements (variable-length integers, booleans) can be encoded in
+	// more than one way, while the hash and the size must not depend on the
+	// encoding this transaction has come with: everywhere else (block, DB)
+	// they are the ones of the canonical encoding.
+	if cb := tx.Bytes(); !bytes.Equal(cb, b) {
+		tx.size = len(cb)
+		tx.hashed = false
+		if err := tx.createHash(); err != nil {
+			return nil, err
+		}
+	}
 	return tx, nil
 }
 
